@@ -619,6 +619,12 @@ func AddClient(group string, c Client, creds ClientCredentials) (*Group, error) 
 	}
 	defer g.mu.Unlock()
 
+	if cg := c.Group(); cg != nil && cg != g {
+		// the client was created for a group that has been
+		// deleted since; DelClient would never find it
+		return nil, errors.New("client belongs to a deleted group")
+	}
+
 	clients := g.getClientsUnlocked(nil)
 
 	var username string
